@@ -56,6 +56,13 @@ Section C10.
   Theorem C10_commutes_with_negation vs (F G : bfun) x : unsat vs G x = false ->
     constrain_spec vs (fun e => negb (F e)) G x = negb (constrain_spec vs F G x).
   Proof. intro Hu. unfold constrain_spec. rewrite Hu. reflexivity. Qed.
+  (* termination: for every reachable state and live handles there is a fuel bound (a multiple of the number of variable
+     levels) from which on the step yields no result ONLY IF the node table filled up on the way ("Storage is full") *)
+  Theorem C10_constrain_fuel_bound mr f g rf rg :
+    reachable mr -> liveh mr f rf -> liveh mr g rg ->
+    exists bound, forall fuel, (bound <= fuel)%nat -> mstep fuel mr (HConstrain f g) = None ->
+      exists s', sext (store mr) s' /\ Inv s' /\ storage_full node (tbl s').
+  Proof. exact (constrain_step_fuel_bound nhash khash bmask cmask0 smask0 capacity cap_ok mr f g rf rg). Qed.
 End C10.
 
 Print Assumptions C10_constrain.
@@ -66,3 +73,4 @@ Print Assumptions C10_agrees_on_g.
 Print Assumptions C10_false_care_set.
 Print Assumptions C10_distributes.
 Print Assumptions C10_commutes_with_negation.
+Print Assumptions C10_constrain_fuel_bound.
